@@ -96,13 +96,13 @@ hook_ids = [l.split()[0] for l in hooks_commits if l and not l.split(' ',1)[1].s
 m = {
  "version": 1,
  "setup_cmd": "cd /verif && GOFLAGS=-mod=mod GOPROXY=off GOSUMDB=off GOTOOLCHAIN=local go build -o bin/vcgo ./cmd/vcgo",
- "hooks": {"guard": "verif", "enable": "-tags verif (contract files */contracts_verif.go: comments only, compiled only under the tag)",
+ "hooks": {"guard": "verif", "enable": "-tags verif (contract files */contracts_verif.go: comments only; lemma functions vm|db|asm/lemmas_verif.go: real Go, used only by the verifier; all compiled only under the tag)",
            "baseline_off_cmd": "cd /repo && GOFLAGS=-mod=mod GOPROXY=off GOSUMDB=off go test -json -vet=off -count=1 -timeout 25m ./...",
            "source_commits": hook_ids, "add_only": True},
  "engines": [{"name": "vcgo", "path": "cmd/vcgo", "serves_properties": sorted(claimed),
               "kind_free_text": "self-written modular deductive verifier for a Go subset: go/ssa (naive form) -> verification conditions (SMT-LIB, Int with explicit wrap-around, typed Burstall heap) -> z3 5.1.0 / z3 4.8.12 / cvc5 1.0.3"}],
  "checks": [],
- "notes": "Contracts live in /repo/<pkg>/contracts_verif.go (build tag verif). Known findings: /verif/known_findings.json. Must-fail corpus: /verif/selftest. See DESIGN.md.",
+ "notes": "Contracts live in /repo/<pkg>/contracts_verif.go (build tag verif). Known findings: /verif/known_findings.json (demonstrations under /verif/known). Must-fail corpus: /verif/selftest; seeded changes by sub-agents: /verif/seeded; behaviour-preserving edits: /verif/harmless. Bounded stand-ins (C02 content, C16 grammar/numSize) are labelled bounded in the evidence. See DESIGN.md section 10 and README.md.",
  "not_applicable": [],
 }
 for i in ids:
